@@ -47,7 +47,7 @@ Qed.
 
 (* the configuration of a reading endpoint that faces the writer *)
 Definition reader_of (cfg : wcfg) (rbuf : N) (close1 : bool) : rcfg :=
-  mkRcfg (negb (wc_server cfg)) false 0 0 rbuf close1.
+  mkRcfg (negb (wc_server cfg)) false 0 0 rbuf close1 no_avail.
 
 (* writer model composed with the READER MODEL of C29 *)
 Theorem model_roundtrip : forall cfg rbuf close1 infl ops keys,
